@@ -7,6 +7,7 @@ from ..fieldflow import base_field
 from ..cfg import CFG, EXIT
 from ..util import calls_in, call_name, where, returns_of, parent_map, enclosing
 from .. import props
+from . import common
 
 props.prop(
     'C05',
@@ -35,6 +36,7 @@ def run(ctx):
     ctx.guard(rule_b_hook, ctx, ix, inv)
     ctx.guard(rule_c, ctx, ix)
     ctx.guard(rule_d, ctx, ix)
+    ctx.guard(rule_f, ctx, ix)
     # a link replaced behind the "unchanged" shortcut leaves the memoised masks of linked attributes in place
     from ..report import BorrowedCtx
     from .C03 import rule_e as _shortcut
@@ -530,3 +532,14 @@ def rule_d(ctx, ix):
                            where=where(f, st))
     if n < 1:
         raise AnalysisError('C05.d: no (key, value) cache recognised on the dataset classes')
+
+
+def rule_f(ctx, ix):
+    """The array helpers that statistics and histograms go through (glue.utils.array) are handed masks and values that may be
+    memoised results or component storage: they must not write their arguments in place - a cache entry changed that way is
+    served, shrunken, to every later request."""
+    R = 'C05.f'
+    ctx.describe(R, 'the array reducers never write an argument (or an alias of one) in place', floor=3)
+    n = common.check_inplace_fresh(ctx, R, ix, ['glue.utils.array'], exceptions={('-', '-'): '-'}, borrowed_params=True)
+    if n < 3:
+        raise AnalysisError('C05.f: only %d in-place writes seen in glue.utils.array' % n)
